@@ -24,16 +24,19 @@ RULE = ('Hypothesis RuleBasedStateMachine over one long-lived interpreter '
         'a pool of 3-5 generated decks (Boolean level-0 decks, universe '
         'trees, rectangular and hexagonal lattices, duplicate / unused / '
         'flagged surfaces, multi-particle importance decks, material decks, '
-        'LIKE decks, small shipped example decks) and 6 option sets (one of '
-        'them --cache, one the same deck with other --lattice ranges); '
+        'LIKE decks, small shipped example decks) and 7 option sets (one of '
+        'them --cache, one the same deck with other --lattice ranges, one '
+        'with both --lattice options for the same cell on one command line); '
         'rules: convert(deck, options) '
         'in-process, convert_failing(fault-injected deck) which must raise, '
         'convert_default_output (no -o; input files are named with '
-        'the extensions .imcnp, .i, none and .v2.inp), reconvert(an earlier '
+        'the extensions .imcnp, .i, none, .v2.inp and .t4, and by absolute '
+        'path, bare name, ./name or ../dir/name), reconvert(an earlier '
         'pair), every_ordered_pair(options) which '
         'converts b right after a for all ordered pairs of pool decks, '
         'fresh_hashseed(deck, options, seed in '
-        '{1, 2, random}). Invariants after every step: the bytes written '
+        '{1..5, random}, every other time on the two-option command line). '
+        'Invariants after every step: the bytes written '
         '(command-line echo stripped) equal the memoised output of a fresh '
         'process with PYTHONHASHSEED=0 for the same (deck, options); fresh '
         'processes under other hash seeds agree with it; the input file\'s '
